@@ -1,14 +1,15 @@
 #!/usr/bin/env python3
 # developer helper: run verus on a generated unit and print failures by function
-import sys,json,re,subprocess
+import sys,json,re,subprocess,os
+GEN=os.environ.get('VERIF_GEN','/verif/gen')
 unit=sys.argv[1]; extra=sys.argv[2:]
-src=open('/verif/gen/%s.rs'%unit).read().split('\n')
+src=open(GEN+'/%s.rs'%unit).read().split('\n')
 fnre=re.compile(r'^\s*(?:pub )?(?:proof |exec )?fn (\w+)')
 def fn_at(l):
     for i in range(l-1,-1,-1):
         m=fnre.match(src[i])
         if m: return m.group(1)
-p=subprocess.run(['verus','%s.rs'%unit,'--multiple-errors','30','--error-format=json']+extra,cwd='/verif/gen',capture_output=True,text=True)
+p=subprocess.run(['verus','%s.rs'%unit,'--multiple-errors','30','--error-format=json']+extra,cwd=GEN,capture_output=True,text=True)
 for line in p.stderr.split('\n'):
     line=line.strip()
     if not line.startswith('{'): continue
